@@ -263,6 +263,22 @@ def run(ctx):
                 okd = False
                 detail = f"the decrement at line {dcall.line} is not conditional on the client still being present (Some edge of clients.get_mut/remove) next to a clients.remove"
         chk.ob("C11.b", f"{rt.path} [removal accounting]", okd, f"{detail}; every decrement is guarded by the client being present and paired with its removal" if okd else f"decrement_clients can run without a client actually being removed ({detail}): a client counted out twice brings the count to zero with a client still connected and should_send turns false", rt.loc())
+        # a client leaves only because its connection is finished: each removal (directly, or through the to-remove list) is
+        # on the `true` edge of that client's drive_connection() — never on a readiness flag, which a half-closed client that
+        # is still reading also raises
+        def _dc_true(bb):
+            return any(lab is True and sym_is_call(dd, "drive_connection") for dd, lab in gates(b, bb))
+
+        marks = [c for c in nonforeign_calls(rt) if c.fn is rt and c.is_("Vec<T, A>::push", "Vec<T>::push") and "clients_to_remove" in _name_of(rt, c.args[0])]
+        bad_rm = []
+        for r in removes:
+            ksym = sym_str(sy.operand(r.args[1]))
+            if _dc_true(r.bb) or ("drain" in ksym and marks):
+                continue
+            bad_rm.append(r)
+        bad_rm += [c for c in marks if not _dc_true(c.bb)]
+        if removes:
+            chk.ob("C11.b", f"{rt.path} [removal cause]", not bad_rm, f"{len(removes)} removal site(s), {len(marks)} mark site(s), each on drive_connection() == true" if not bad_rm else f"a client is removed (line {bad_rm[0].line}) without its connection having been driven to an end: a client that is still reading stops receiving metrics", bad_rm[0].loc() if bad_rm else rt.loc())
         # metadata for a new client is its initial queue
         if inserts:
             v = strip_sym(sy.operand(inserts[0].args[2]))
@@ -289,6 +305,11 @@ def run(ctx):
             chk.rule("C11.f", "RANGE intake bound: a message is appended to the per-pass queue only while the queue is strictly shorter than the limit the fan-out forwards (take(limit)) — otherwise the newest message of a full pass is silently discarded for every client, or the drain range exceeds a client's queue", floor=1)
             qsym = repr(strip_sym(strip_sym(arg_syms(takes[0])[0])[2][0]))
             lim = repr(strip_sym(arg_syms(takes[0])[1]))
+            # "no limit" stays no limit: wherever the forwarded limit falls back to a constant (buffer_size == None), that
+            # constant is the unbounded sentinel, not some finite default
+            fallbacks = [x[2] for x in sym_walk(strip_sym(arg_syms(takes[0])[1])) if isinstance(x, tuple) and x[:2] == ("const", "int")]
+            finite = [k for k in fallbacks if k != USIZE_MAX]
+            chk.ob("C11.c", f"{rt.path} [no limit is unbounded]", not finite, f"the limit is the configured size or the sentinel usize::MAX ({len(fallbacks)} constant fallback(s))" if not finite else f"without a configured size the per-client limit falls back to {finite[0]}: an exporter built with `no limit` silently discards messages beyond it", takes[0].loc(), nontrivial=False)
             pushes = [c for c in nonforeign_calls(rt) if c.fn is rt and c.is_("VecDeque<T, A>::push_back", "push_back") and repr(strip_sym(arg_syms(c)[0])) == qsym]
             if not pushes:
                 chk.unrecognised("C11.f", f"{rt.path} [intake]", "no push_back onto the queue that the fan-out forwards", takes[0].loc())
@@ -392,6 +413,16 @@ def run(ctx):
     if convm:
         enc = [c for c in nonforeign_calls(convm) if c.is_("Message::encode_length_delimited")]
         chk.ob("C11.d", f"{convm.path} [framing]", len(enc) == 1, "metadata frames are built with encode_length_delimited" if len(enc) == 1 else "metadata frames are not length-delimited prost messages", convm.loc())
+    # the frame is everything the encoder wrote and nothing else: the encoder's target is a growable buffer that starts empty
+    # (a pre-sized slice fails for a message whose length prefix is longer than guessed, or leaves padding in the stream)
+    for cf_ in (conv, convm):
+        if not cf_:
+            continue
+        enc = [c for c in nonforeign_calls(cf_) if c.is_("Message::encode_length_delimited", "Message::encode")]
+        for c in enc:
+            tgt = strip_sym(arg_syms(c)[1])
+            empty = isinstance(tgt, tuple) and tgt and tgt[0] == "call" and isinstance(tgt[1], str) and strip_generics(tgt[1]).split("::")[-1] in ("new", "with_capacity", "default") and any(w in tgt[1] for w in ("Vec", "BytesMut"))
+            chk.ob("C11.d", f"{cf_.path} [frame buffer]", empty, "encoded into a growable buffer that starts empty" if empty else f"the frame is encoded into {sym_str(tgt)[:70]}, not into an initially empty growable buffer: a message that needs a longer length prefix than guessed fails to encode (and is dropped), or padding bytes follow the frame", c.loc(), nontrivial=False)
     # every Bytes pushed to a client queue comes from the two converters
     impls = recorder_impls(t)
     for (self_ty, ip), ms in impls.items():
